@@ -44,7 +44,10 @@ class Obj:
 
     @property
     def term(self):
-        return sym(self.name)
+        # a rule may give an abstract record a value ("$value"): arithmetic, comparisons and embedding into
+        # terms then use that value instead of the opaque name
+        v = self.__dict__["attrs"].get("$value")
+        return sym(self.name) if v is None else v
 
 
 class Func:
@@ -134,6 +137,7 @@ _PYCMP = {"==": operator.eq, "!=": operator.ne, "<": operator.lt, "<=": operator
           ">=": operator.ge}
 _NEGATIVE = {"!=": "==", "not in": "in", "is not": "is"}
 _NOISE_RECEIVERS = {"logger", "logging", "warnings"}
+_MAYBE_NONE = {"sym", "call", "mcall", "attr", "item", "elem", "ite", "slice", "binop"}
 
 
 def _is_sym(v):
@@ -158,7 +162,8 @@ class Symex:
     """
 
     def __init__(self, model, inline=None, hooks=None, unroll=2, max_paths=512, max_steps=200000, what="?",
-                 assume_asserts=True, isinstance_hook=None, attr_hook=None, max_depth=12, cut_loops=False):
+                 assume_asserts=True, isinstance_hook=None, attr_hook=None, max_depth=12, cut_loops=False,
+                 normalize=None):
         self.model = model
         self.inline = inline or (lambda q: False)
         self.hooks = dict(hooks or {})
@@ -171,6 +176,7 @@ class Symex:
         self.attr_hook = attr_hook
         self.max_depth = max_depth
         self.cut_loops = cut_loops
+        self.normalize = normalize          # callable(term) -> term applied to results of symbolic arithmetic
         self._modconst = {}
         self.fresh_n = 0
         self.on_start = None
@@ -626,6 +632,18 @@ class Symex:
 
     # ------------------------------------------------------------ expressions
     def binop(self, op, a, b, node):
+        # abstract records may define their own arithmetic: attrs["$binop"](sx, op, left, right, node)
+        for x in (a, b):
+            if isinstance(x, Obj) and callable(x.attrs.get("$binop")):
+                r = x.attrs["$binop"](self, op, a, b, node)
+                if r is not NotImplemented:
+                    return r
+        r = self._binop(op, a, b, node)
+        if self.normalize is not None and isinstance(r, T):
+            r = self.normalize(r)
+        return r
+
+    def _binop(self, op, a, b, node):
         sa, sb = isinstance(a, T), isinstance(b, T)
         if isinstance(a, Obj):
             a, sa = a.term, True
@@ -669,6 +687,9 @@ class Symex:
             a = sym(a.name)
         if isinstance(b, Ext):
             b = sym(b.name)
+        if opname in ("is", "is not") and ((isinstance(a, Obj) and b is None and a.attrs.get("$id")) or
+                                           (isinstance(b, Obj) and a is None and b.attrs.get("$id"))):
+            return opname == "is not"           # a record declared an individual ("$id") is never None
         if isinstance(a, Obj) and not (opname in ("is", "is not", "==", "!=") and isinstance(b, Obj)):
             a = a.term
         if isinstance(b, Obj) and not isinstance(a, Obj):
@@ -679,6 +700,9 @@ class Symex:
                 return r if opname == "in" else t_not(r)
             return r if opname == "in" else not r
         if opname in ("is", "is not"):
+            if (a is None and isinstance(b, T) and b.op not in _MAYBE_NONE) or \
+                    (b is None and isinstance(a, T) and a.op not in _MAYBE_NONE):
+                return opname == "is not"       # an arithmetic / constructed value is never None
             if isinstance(a, T) or isinstance(b, T):
                 if a is None or b is None or isinstance(a, T) and isinstance(b, T):
                     if isinstance(a, T) and isinstance(b, T) and a == b:
@@ -708,6 +732,10 @@ class Symex:
             self.unsupported(node, "comparison of unsupported values")
 
     def contains(self, coll, x, node):
+        if isinstance(x, Obj) and x.attrs.get("$id") and isinstance(coll, (list, tuple, set, frozenset, dict)) and \
+                not any(isinstance(e, T) for e in coll):
+            # a record the rule declared an individual ("$id"): membership by identity, as `==` between two records
+            return any(e is x for e in coll)
         if isinstance(coll, Obj):
             coll = coll.term
         if isinstance(x, Obj):
@@ -968,6 +996,10 @@ class Symex:
             return getattr(obj, attr)
         if isinstance(obj, Func) and attr == "__name__":
             return getattr(obj.node, "name", "<lambda>")
+        if is_num(obj) and self.attr_hook is not None:
+            r = self.attr_hook(self, obj, attr, node)
+            if r is not NotImplemented:
+                return r
         self.unsupported(node, f"attribute {attr} of {type(obj).__name__}")
 
     def find_method(self, clsref, name, _seen=None):
@@ -1055,7 +1087,9 @@ class Symex:
             key = f"{recv.cls.split(':')[-1]}.{name}" if recv.cls else name
             for hk in (key, name):
                 if hk in self.hooks and callable(self.hooks[hk]):
-                    return self.hooks[hk](self, [recv] + list(args), kw)
+                    r = self.hooks[hk](self, [recv] + list(args), kw)
+                    if r is not NotImplemented:
+                        return r
             if name in recv.attrs:
                 return self.call_value(recv.attrs[name], args, kw, node)
             m = self.find_method(recv.cls, name) if recv.cls else None
